@@ -178,7 +178,9 @@ class BaseLoss(object):
         # so we first check the type
         self._observeT = t.copy()
         # and insert the initial value
-        self._t = np.insert(t, 0, t0)
+        # (as floats: np.insert casts t0 to the dtype of t, an integer grid
+        # would truncate a fractional initial time)
+        self._t = np.insert(np.asarray(t, dtype=float), 0, t0)
         # and length
         self._numTime = len(self._t)
 
